@@ -68,13 +68,13 @@ fn gen_op(ctx: &mut Ctx, stack_len: u64, hp: u64, giant: bool) -> MOp {
 }
 
 fn mem_histories(ctx: &mut Ctx) {
-    let nh = ctx.n(120, 1500);
+    let nh = ctx.n(80, 1500);
     for hi in 0..nh {
         let mut m = MemoryInstance::new();
         let mut hp = fuel_vm::consts::VM_MAX_RAM;
         ctx.emit("m new", &format!("ok - sl=0 hp={hp} hl=0"));
         let n = ctx.rng.range(5, 40);
-        let giant = ctx.rng.chance(1, 10);
+        let giant = ctx.rng.chance(1, 16);
         if giant { ctx.count("mem.history-with-64MiB-boundary-ops"); }
         let mut ops = vec![];
         let mut last_reset = None;
